@@ -552,6 +552,6 @@ def check(run, db, tier):
     run.require_instances('C08.emit', 60)
     run.require_instances('C08.shape', 80)
     run.require_instances('C08.sibling', 10)
-    run.require_instances('C08.shared', 6)
+    run.require_instances('C08.shared', 3)
     run.require_instances('C08.table2', 16)
     run.require_instances('C08.qseq', 40)
